@@ -335,7 +335,7 @@ func c01LocalVariants(tier string) []*world.Scenario {
 func init() {
 	register(&Check{
 		ID: "C01", Level: "model_checking",
-		Rule: "every pipeline over the request-kind alphabet {GET@A, GET@B, MGET split A+B, DEL split A+B, PING, AUTH, unknown command, wrong arity, QUIT(last)} up to the tier's length, on 1-3 concurrent clients, whole-pipeline and per-request chunking; configuration variants (two connections per node; password + replica topology); two clients whose replies share one backend read (how many replies a read carries is enumerated), one of them leaving by QUIT; multi-key requests that can only be routed in part (one key in an unowned slot range) at every pipeline position; one locally answered request per rejection path of every decoding branch (EVAL/EVALSHA/MSET/MGET/DEL/default arity, long unknown names, oversize of every branch, AUTH/PING with extra arguments) between and in front of pending forwarded requests; batches of three replies released by one vectored write to a slow reader under every EAGAIN / short-write answer; for each, every interleaving of client reads, task runs and backend reply deliveries within the deviation bound; an execution is non-trivial when it contains >= 1 deviation from the synchronous default schedule; distinct = distinct observable outcomes (client byte streams + per-node command logs)",
+		Rule:      "every pipeline over the request-kind alphabet {GET@A, GET@B, MGET split A+B, DEL split A+B, PING, AUTH, unknown command, wrong arity, QUIT(last)} up to the tier's length, on 1-3 concurrent clients, whole-pipeline and per-request chunking; configuration variants (two connections per node; password + replica topology); two clients whose replies share one backend read (how many replies a read carries is enumerated), one of them leaving by QUIT; multi-key requests that can only be routed in part (one key in an unowned slot range) at every pipeline position; one locally answered request per rejection path of every decoding branch (EVAL/EVALSHA/MSET/MGET/DEL/default arity, long unknown names, oversize of every branch, AUTH/PING with extra arguments) between and in front of pending forwarded requests; batches of three replies released by one vectored write to a slow reader under every EAGAIN / short-write answer; for each, every interleaving of client reads, task runs and backend reply deliveries within the deviation bound; an execution is non-trivial when it contains >= 1 deviation from the synchronous default schedule; distinct = distinct observable outcomes (client byte streams + per-node command logs)",
 		Scenarios: c01Scenarios, BudgetQuick: 90, BudgetThorough: 1200,
 		Assumptions: []string{"simulated kernel (vsys) models Linux nonblocking sockets + level-triggered epoll", "stateless node model: replies are a function of the command and embed the key"},
 	})
